@@ -142,6 +142,8 @@ static void derive(const Scenario* sc, uint64_t idx, int tier, Plan& plan, Sched
 	cfg.maxSimTime = sc->maxSimTime;
 	cfg.accessPoints = sc->accessPoints;
 	cfg.relaxed = plan.get("relaxed", 0) != 0;
+	if (cfg.relaxed)
+		cfg.maxSimTime = 1e7; // threads may be held back for arbitrary simulated time: only the step bound judges termination
 	uint32_t r = st.below(100);
 	if ((int)r < sc->pctPercent)
 	{
@@ -642,6 +644,7 @@ struct Shrinker
 			return false;
 		tried++;
 		SchedCfg c = cfg;
+		c.relaxed = cfg.relaxed = cand.get("relaxed", 0) != 0; // the plan owns this switch
 		IsoResult r = runIsolated(sc, cand, c, 20);
 		if (hasFailure(r, cls, key))
 		{
